@@ -222,8 +222,14 @@ where
 
 /-- family `treemap`: mutation/query + iterators (C10, C12), then algebra (C11) -/
 def opsTreemap : Handler := fun st toks =>
-  match opsTreemapCore st toks with
-  | some r => some r
-  | none => opsTreemapAlg st toks
+  match toks with
+  | "tmultih" :: hint :: rest =>
+    -- the same multi-op fed from an iterator with another `size_hint`: treemap/multiops.rs never consults it,
+    -- so the model is the plain `tmulti`
+    if hint == "exact" || hint == "lower0" || hint == "unknown" then opsTreemapAlg st ("tmulti" :: rest) else none
+  | _ =>
+    match opsTreemapCore st toks with
+    | some r => some r
+    | none => opsTreemapAlg st toks
 
 end Roaring.Driver
